@@ -163,6 +163,15 @@ def run_sim(case):
         if sim == "abrm_ptx" and x.shape[0] >= 5:
             x[x.shape[0] // 2] = 0.0
         sig += "|degenerate"
+    rfkind = case["sseed"] % 5
+    utol = 1e-12
+    if rfkind == 1 and sim != "abrm_ptx":
+        rf = rf.astype(np.complex64)             # single-precision waveform
+        utol = 1e-5
+        sig += "|c64"
+    elif rfkind == 2 and sim != "abrm_ptx":
+        rf = np.ascontiguousarray(rf.real)       # purely real waveform (float64 array)
+        sig += "|real"
     checks = 0
     obs = {}
     try:
@@ -178,7 +187,7 @@ def run_sim(case):
     dev = float(np.max(np.abs(np.abs(a) ** 2 + np.abs(b) ** 2 - 1)))
     checks += 1
     obs["unitarity"] = dev
-    if not dev <= 1e-12 * (1 + nt):
+    if not dev <= utol * (1 + nt):
         return violated(sig, "%s: | |a|^2 + |b|^2 - 1 | = %.3g after %d samples" % (sim, dev, nt),
                         wit, mech="unitarity:" + sim, obs=obs)
     if amp == "zero":
@@ -206,7 +215,7 @@ def run_sim(case):
         e = float(max(np.max(np.abs(a12 - a)), np.max(np.abs(b12 - b))))
         checks += 1
         obs["composition"] = e
-        if not e <= 1e-11 * (1 + nt / 16):
+        if not e <= max(1e-11, utol * 10) * (1 + nt / 16):
             return violated(sig, "%s: simulating the two halves and composing their rotations "
                             "differs from simulating the whole waveform by %.3g (split at %d "
                             "of %d)" % (sim, e, k, nt), wit, mech="composition:" + sim, obs=obs)
